@@ -103,3 +103,7 @@ def check(chk):
     good = good and len(rets) == 1 and any(s_ is rets[0] for s_, _ in apps[0].succ)
     chk.judge(good, 'C17.attempted', q, 'send_msg -> attempted_hosts.append(host) -> return request_id', 'attempted host bookkeeping no longer follows the successful send')
     chk.judge('self._current_host = host' in s, 'C17.attempted', q, '_current_host records the host being tried', '_current_host no longer updated')
+
+    # "never tries a host again unless a retry decision says so": the same-host retry falls through to the next host only when the re-send failed
+    chk.rule('C17.retry', '_retry_task moves on to the next host only when the same-host re-send returned None (shared with C16)')
+    chk.borrow('C16', {'C16.host': 'C17.retry'}, 'a successful same-host retry (stream id 0 is falsy) is followed by an unrequested attempt on the next host')
